@@ -35,6 +35,7 @@ def classes(ctx):
     c["t"] = _variants(lm, "t", ["tbl", "orders", "Users", "t_1", "order_items", "Tbl2"])
     c["s1"] = _variants(lm, "s1", ["sch", "dbo", "My_Schema", "x_1", "analytics", "Zq9"])
     c["s2"] = _variants(lm, "s2", ["sc2", "db2", "Other_S", "y_1", "reporting", "Zr8"])
+    c["u"] = lm.plain("u", ["uniq_t", "customers", "Only_One", "u_1", "single_table", "Uu2"])
     c["nosuch"] = lm.plain("nosuch", ["nosuch", "missing_t", "Ghost", "zz_9", "not_there", "Nope2"])
     c["a"] = lm.plain("a", ["aa", "id", "Col", "a_1", "user_name", "ZipCode2"])
     c["b"] = lm.custom('"B"', ['"BB"', '"Uid"', '"CAL"', '"B_2"', '"Order_Total"', '"ZAP3"'], "DQ")
@@ -70,12 +71,12 @@ def base_tables(ctx, C):
     lm = ctx.lexer
     P, N = punct(lm), numbers(lm)
 
-    def table(schema_cls):
+    def table(schema_cls, name_cls=None):
         def build(s, a):
             a = s.words(a, "head", [("KW", "CREATE"), ("KW", "TABLE")])
             if schema_cls is not None:
                 a = s.words(a, "head", [(schema_cls, "schema"), P["."]], begin=False)
-            a = s.words(a, "head", [(C["t"]["same"], "name")], begin=False)
+            a = s.words(a, "head", [(name_cls or C["t"]["same"], "name")], begin=False)
             a = s.words(a, "lp", [P["("]])
             a = s.words(a, "col", [(C["a"], "name"), (C["typ"], "type")])
             a = s.words(a, "sep", [P[","]])
@@ -85,13 +86,15 @@ def base_tables(ctx, C):
             return s.words(a, "end", [P[")"]])
         return build
     return [parse_linear(ctx, "base-s1.t", table(C["s1"]["same"])), parse_linear(ctx, "base-s2.t", table(C["s2"]["same"])),
-            parse_linear(ctx, "base-t", table(None))]
+            parse_linear(ctx, "base-t", table(None)), parse_linear(ctx, "base-s1.u", table(C["s1"]["same"], C["u"]))]
 
 
 # which table (index in the script) a way of writing the target denotes; None = no table matches -> must raise
 REFS = {
     "s1.same": 0, "s1.upper": 0, "s1.dq": 0, "s1.br": 0, "s1.bt": 0, "s2.same": 1, "s2.upper": 1, "s2.dq": 1,
     "bare.same": 2, "bare.upper": 2, "bare.dq": 2, "nosuch": None, "s1.nosuch": None,
+    # a table that exists under one schema only: unqualified or under another schema it is a different, undefined table
+    "u.s1": 3, "u.bare": None, "u.s2": None,
 }
 
 
@@ -108,6 +111,7 @@ def build(ctx, tier="quick", judge=True):
     home = s.new()          # every action; reached from the plainly written targets (thorough: from every way of writing it)
     home_few = s.new()      # a representative action of each family; reached from every way of writing the target
     MAIN = ("s1.same", "s2.same", "bare.same", "nosuch")
+    U = {"u.s1": C["s1"]["same"], "u.bare": None, "u.s2": C["s2"]["same"]}
 
     def ref(start, kind, to, to_few=None):
         for rk in REFS:
@@ -116,8 +120,14 @@ def build(ctx, tier="quick", judge=True):
 
     def _ref_one(start, kind, to, rk):
         if True:
-            sk, style = rk.split(".") if "." in rk else ("bare", rk)
             st = start
+            if rk in U:
+                if U[rk] is not None:
+                    st = s.edge(st, U[rk], Tag(kind, False))
+                    st = s.edge(st, P["."], Tag(kind, False))
+                s.edge(st, C["u"], Tag(kind, False, "ref:" + rk), to)
+                return
+            sk, style = rk.split(".") if "." in rk else ("bare", rk)
             if rk == "nosuch":
                 s.edge(st, C["nosuch"], Tag(kind, False, "ref:nosuch"), to)
                 return
@@ -228,8 +238,8 @@ class AlterOracle:
         self.fmt = format_output
         for mode in modes:
             self.alone[mode] = self.fmt(ctx, copy.deepcopy(self.base), mode)
-            if len(self.alone[mode]) != 3:
-                raise AnalysisError("the three base tables of the alter fragment do not yield three entries")
+            if len(self.alone[mode]) != 4:
+                raise AnalysisError("the base tables of the alter fragment do not yield one entry each")
 
     def __call__(self, ex, red):
         return 0
@@ -309,9 +319,9 @@ class AlterOracle:
     def judge(self, ex, kind, refkey, target, roles, out, alone, wit):
         def bad(what, detail):
             ex.add("O-final", f"alter: `{kind}` on `{refkey}`: {what}", detail, wit)
-        if not isinstance(out, list) or len(out) != 3:
-            return bad("number of entries", f"expected the three tables, got {show(out)!r}"[:300])
-        for i in range(3):
+        if not isinstance(out, list) or len(out) != 4:
+            return bad("number of entries", f"expected the four tables, got {show(out)!r}"[:300])
+        for i in range(4):
             if i != target and not deep_eq_safe(out[i], alone[i]):
                 return bad(f"table #{i + 1} of the script changed although the statement names table #{target + 1}",
                            f"{show(out[i])!r} != {show(alone[i])!r}"[:400])
